@@ -45,7 +45,10 @@ HENC_CASES = [
     ('x', '<body><p><meta charset=x>'), ('x', '<template><meta charset=x></template>'), ('-', '<!-- <meta charset=x> -->'),
     ('-', '<title><meta charset=x></title>'), ('-', '<script><meta charset=x></script>'), ('-', '</meta charset=x>'),
     ('big5', '<meta http-equiv="CONTENT-TYPE" content="a;Charset = \'big5\' x">'), ('-', '<meta http-equiv="content-type" content="charset=\'big5">'),
-    ('y', '<meta http-equiv="content-type" content="charset x; charset=y;z">'), ('latin1,utf-8', '<link charset=q><meta charset=latin1><base charset=r><meta charset=utf-8>'),
+    ('y', '<meta http-equiv="content-type" content="charset x; charset=y;z">'),
+    # only TAB, LF, FF, CR and SPACE are skipped around '=' (not U+00A0, U+000B, U+3000 ...)
+    ('-', '<meta http-equiv=content-type content="charset\u00a0=koi8-r">'), ('\u3000shift_jis', '<meta http-equiv=content-type content="charset=\u3000shift_jis">'),
+    ('windows-1252', '<meta http-equiv=content-type content="charset\u000b=x-user-defined; charset=windows-1252">'), ('latin1,utf-8', '<link charset=q><meta charset=latin1><base charset=r><meta charset=utf-8>'),
 ]
 
 
